@@ -304,7 +304,8 @@ def run_contain(case):
     min_slack = float(slack.min())
     truth = dict(min_slack=min_slack)
     if min_slack < -4 * tol:
-        truth.update(inside=False, why="vertex-outside", m=-min_slack / 2)
+        vi, fi = np.unravel_index(int(np.argmin(slack)), slack.shape)
+        truth.update(inside=False, why="vertex-outside", m=-min_slack / 2, worst=[int(fi), int(vi)])
     elif min_slack <= 4 * tol:
         truth.update(inside=None)
     else:
